@@ -17,6 +17,46 @@ SITES = {
 }
 
 
+# private items the harnesses name, with the signature by which each is recognised after a rename (pinned name first)
+ROLE_FNS = {
+    'cm': [('simultaneous_dial_tie_breaking', r'fn\s+(\w+)\s*\(\s*\w+\s*:\s*&PeerId\s*,\s*\w+\s*:\s*&PeerId\s*,\s*\w+\s*:\s*ConnectionOrigin\s*,\s*\w+\s*:\s*ConnectionOrigin\s*,?\s*\)\s*->\s*bool'),
+           ('update', r'fn\s+(\w+)\s*\(\s*&mut self\s*,\s*\w+\s*:\s*(?:std::time::)?Instant\s*,\s*\w+\s*:\s*(?:std::time::)?Duration\s*,\s*\w+\s*:\s*(?:std::time::)?Duration\s*,?\s*\)'),
+           ('new', r'fn\s+(\w+)\s*\(\s*\w+\s*:\s*(?:std::time::)?Instant\s*,\s*\w+\s*:\s*(?:std::time::)?Duration\s*,\s*\w+\s*:\s*(?:std::time::)?Duration\s*,?\s*\)\s*->\s*Self')],
+    'wire': [('read_version_frame', r'async fn\s+(\w+)\s*<\s*\w+\s*:\s*AsyncRead \+ Unpin\s*>\s*\(\s*\w+\s*:\s*&mut \w+\s*,?\s*\)\s*->\s*Result<Version>'),
+             ('write_version_frame', r'async fn\s+(\w+)\s*<\s*\w+\s*:\s*AsyncWrite \+ Unpin\s*>\s*\(\s*\w+\s*:\s*&mut \w+\s*,\s*\w+\s*:\s*Version\s*,?\s*\)\s*->\s*Result<\(\)>'),
+             ('network_message_frame_codec', r'fn\s+(\w+)\s*\(\s*\w+\s*:\s*&Config\s*\)\s*->\s*LengthDelimitedCodec')],
+}
+ROLE_FIELDS = {'cm': [('DialBackoffState', 'backoff', r'Instant$'), ('DialBackoffState', 'attempts', r'^usize$')]}
+
+
+def adapt_harness(site, text, src):
+    """rename, in the harness text, private functions/fields of the pinned commit to what the current source calls them
+    (recognised by signature / field type).  Only exact identifier occurrences are replaced; nothing else changes."""
+    plain = re.sub(r'//[^\n]*', '', src)
+    notes = []
+    for pinned, sig in ROLE_FNS.get(site, []):
+        if re.search(r'\bfn\s+' + re.escape(pinned) + r'\b', plain):
+            continue
+        names = sorted(set(re.findall(sig, plain)))
+        if len(names) == 1:
+            text = re.sub(r'(?<![\w])' + re.escape(pinned) + r'\s*\(', names[0] + '(', text) if pinned in ('update', 'new') else re.sub(r'\b' + re.escape(pinned) + r'\b', names[0], text)
+            notes.append(f'{pinned} -> {names[0]}')
+    for struct, fld, ty in ROLE_FIELDS.get(site, []):
+        m = re.search(r'\bstruct\s+' + struct + r'\s*\{(.*?)\n\}', plain, re.S)
+        if not m:
+            continue
+        fields = re.findall(r'(\w+)\s*:\s*([^,\n]+)', m.group(1))
+        if any(n == fld for n, _ in fields):
+            continue
+        cands = [n for n, t in fields if re.search(ty, t.strip().rstrip(','))]
+        if len(cands) == 1:
+            text = re.sub(r'(?<=\.)' + fld + r'\b', cands[0], text)                                     # field access
+            text = re.sub(r'(' + struct + r'\s*\{(?:[^{}]*?,)?\s*)' + fld + r'(\s*:)', lambda mm: mm.group(1) + cands[0] + mm.group(2), text)   # `S { fld: v }`
+            text = re.sub(r'(' + struct + r'\s*\{(?:[^{}]*?,)?\s*)' + fld + r'(\s*[,}])', lambda mm: mm.group(1) + f'{cands[0]}: {fld}' + mm.group(2), text)   # shorthand `S { fld }`
+            notes.append(f'{struct}.{fld} -> {cands[0]}')
+    return text, notes
+
+
 def overlay(scratch, sites):
     """add-only edit of the scratch copy: harness modules + prelude"""
     crate = os.path.join(scratch, 'crates/anemo')
@@ -27,7 +67,11 @@ def overlay(scratch, sites):
         cdir, src, hfile, _mod = SITES[s]
         srcpath = os.path.join(scratch, cdir, src)
         d = os.path.dirname(srcpath)
-        shutil.copy(os.path.join(VERIF, 'kani', hfile), os.path.join(d, f'__verif_{s}.rs'))
+        text, notes = adapt_harness(s, open(os.path.join(VERIF, 'kani', hfile)).read(), open(srcpath, errors='replace').read())
+        with open(os.path.join(d, f'__verif_{s}.rs'), 'w') as f:
+            f.write(text)
+        if notes:
+            log(f'[kani] harness {hfile} adapted to renamed private items: ' + ', '.join(notes))
         with open(srcpath, 'a') as f:
             f.write(f'\n#[cfg(kani)] #[path = "__verif_{s}.rs"] mod __verif_{s};\n')
 
